@@ -85,6 +85,74 @@ _iter_solutions = Contract(
     notes='os.path.sep modelled as "/" (POSIX); str.split/join assumed inverse; regex -stubs$ removal is a pure callee',
 )
 
+def dotted_name_oracle(sys_path, module_path):
+    """independent statement of the clause with pathlib: the dotted name of a file relative to the sys.path entries that
+    are its parent directories, shortest first (executable; used by the replay only)"""
+    import re as _re
+    from importlib.machinery import all_suffixes
+    from pathlib import PurePosixPath
+    mp = PurePosixPath(str(module_path))
+    name = mp.name
+    for suf in sorted(all_suffixes() + ['.pyi'], key=len, reverse=True):
+        if name.endswith(suf):
+            name = name[:-len(suf)]
+            break
+    if name.startswith('.'):
+        return (None, False)
+    is_pkg = name == '__init__'
+    target = mp.parent if is_pkg else mp.parent / name
+    cands = []
+    for p in sys_path:
+        try:
+            rel = target.relative_to(PurePosixPath(p))
+        except ValueError:
+            continue
+        if rel.parts:
+            cands.append(tuple(_re.sub(r'-stubs$', '', x) for x in rel.parts))
+    if not cands:
+        return (None, False)
+    return (min(cands, key=len), is_pkg)
+
+
+def _replay_transform(inp):
+    from pyvc.replay import run_real
+    from pathlib import Path
+    from jedi.inference.sys_path import transform_path_to_dotted
+    sp = list(inp['sys_path'])
+    mp = Path(inp['module_path'])
+    out = run_real(lambda: transform_path_to_dotted(sp, mp))
+    return {'sys_path': sp, 'module_path': mp, 'ORACLE': dotted_name_oracle(sp, mp)}, out
+
+
+_SOLS = FnSpec('iter_potential_solutions', params=[], ret=Seq(Seq(STR)), pure=True, assumed=False,
+               note='C10.transform_path_to_dotted.iter_potential_solutions (generator under contract)')
+
+_transform = Contract(
+    id='C10.transform_path_to_dotted', prop='C10',
+    clause='file path -> dotted name: hidden files have none; otherwise the result is one of the candidate names (each '
+           'of which imports back to the file), a shortest one; it is flagged a package exactly for __init__ files; no '
+           'candidate => (None, False)',
+    file='jedi/inference/sys_path.py', qualname='transform_path_to_dotted',
+    params={'sys_path': Seq(STR), 'module_path': PATH}, ret=Tup(Opt(Seq(STR)), BOOL),
+    requires=['valid_path(module_path)'],
+    ensures=[
+        'implies(result[0] is not None, the(result[0]) in iter_potential_solutions())',
+        'implies(result[0] is not None, all(len(the(result[0])) <= len(s) for s in iter_potential_solutions()))',
+        'implies(result[0] is None, not result[1])',
+        'implies(result[0] is not None, result[1] == (remove_python_path_suffix(module_path).name == "__init__"))',
+        'implies(len(iter_potential_solutions()) > 0 and not remove_python_path_suffix(module_path).name.startswith("."), result[0] is not None)',
+    ],
+    abstract_locals={'iter_potential_solutions': _SOLS}, names={'iter_potential_solutions': _SOLS},
+    concrete_ensures=['result[0] == ORACLE[0]', 'result[1] == ORACLE[1]'],
+    witness={'sys_path': 'sys_path', 'module_path': 'module_path'}, replay=_replay_transform, concrete_only=True,
+    witness_library=[{'sys_path': sp, 'module_path': mp}
+                     for sp in (['/a'], ['/a/'], ['/a', '/a/pk'], ['/a/pk', '/a'], ['/a/p'], ['/'], ['/b'], ['/a/pk-stubs'])
+                     for mp in ('/a/pk/mod.py', '/a/pk/__init__.py', '/a/pk/sub/__init__.pyi', '/a/pk/.hidden.py',
+                                '/a/pk-stubs/x.pyi', '/a/mod.py', '/a/pk/sub/deep/m.py')],
+    notes='the nested generator is an abstract callee here (its own contract carries the imports-back clause); '
+          'iter_potential_solutions() names the sequence it yields',
+)
+
 _remove_suffix_spec = FnSpec('remove_python_path_suffix', params=[('path', PATH)], ret=PATH, pure=True, assumed=False)
 
 _importer_init = Contract(
@@ -159,8 +227,8 @@ _prepare = Contract(
            'values are those of the importer for exactly that path and level',
     file='jedi/inference/imports.py', qualname='_prepare_infer_import',
     params={'module_context': Obj('ModCtx'), 'tree_name': Obj('PNode')},
-    families=['ModCtx', 'PNode', 'ImportNode', 'ImporterV', 'InfState10'],
-    ret=Tup(Opt(ANY), Seq(ANY), INT, ANY),
+    families=['ModCtx', 'PNode', 'ImportNode', 'ImporterV', 'InfState10', 'VS10'],
+    ret=Tup(Opt(ANY), Seq(ANY), INT, Obj('VS10')),
     ensures=[
         'implies(tree_name.search_ancestor("import_name", "import_from").type == "import_from" and '
         'len(tree_name.search_ancestor("import_name", "import_from").get_from_names()) + 1 == len(tree_name.search_ancestor("import_name", "import_from").get_path_for_name(tree_name)), '
@@ -276,6 +344,76 @@ _import_module10 = Contract(
           'constructors are abstract pure functions of their arguments',
 )
 
+def _replay_infer_import(inp):
+    """real infer_import (memoisation decorator removed) over a fake _prepare_infer_import / Importer: does the imported
+    name come from the attribute of the from-part when there is one, and from the sub-module only otherwise?"""
+    from pyvc.replay import run_real, raw_function
+    from jedi.inference import imports as imp
+    log = []
+
+    class _VS:
+        def __init__(self, tag, items):
+            self.tag, self.items = tag, items
+
+        def __bool__(self):
+            return bool(self.items)
+
+        def py__getattribute__(self, name, name_context=None, analysis_errors=True):
+            log.append(('getattr', name, analysis_errors))
+            return _VS('attr', inp['attr'])
+
+        def __eq__(self, other):
+            return isinstance(other, _VS) and (self.tag, self.items) == (other.tag, other.items)
+
+    class _Imp:
+        def __init__(self, inference_state, import_path, module_context, level=0):
+            self.a = (tuple(import_path), level)
+
+        def follow(self):
+            log.append(('follow',) + self.a)
+            return _VS('sub', inp['sub'])
+
+    class _Ctx:
+        inference_state = None
+
+        def get_root_context(self):
+            return self
+    fin = inp['from_import_name']
+    prep = (fin, tuple(inp['import_path']), inp['level'], _VS('from', inp['values']))
+    fn = raw_function(imp, inp.get('fn', 'infer_import'), {'_prepare_infer_import': lambda mc, tn: prep, 'Importer': _Imp})
+    out = run_real(lambda: fn(_Ctx(), 'TREE_NAME'))
+    if not inp['values'] or fin is None:
+        exp, exp_log = _VS('from', inp['values']), []
+    elif inp['attr']:
+        exp, exp_log = _VS('attr', inp['attr']), [('getattr', fin, False)]
+    else:
+        exp = _VS('sub', inp['sub'])
+        exp_log = [('getattr', fin, False), ('follow', tuple(inp['import_path']) + (fin,), inp['level'])]
+    return {'LOG': log, 'EXPECTED': exp, 'EXPECTED_LOG': exp_log}, out
+
+
+_II_LIB = [dict(from_import_name=f, import_path=['pk', 'sub'], level=l, values=v, attr=a, sub=s)
+           for f in (None, 'x') for l in (0, 2) for v in ([], ['M']) for a in ([], ['A']) for s in ([], ['S'])]
+
+_infer_import = Contract(
+    id='C10.infer_import', prop='C10',
+    clause='`from a import b` gives the ATTRIBUTE b of the imported a when a has one, and the sub-module a.b only '
+           'otherwise (order of IMPORT_FROM); a from-part that cannot be imported gives nothing; other import names are '
+           'the module found for their dotted path',
+    file='jedi/inference/imports.py', qualname='infer_import',
+    params={'context': Obj('Ctx10'), 'tree_name': Obj('PNode')},
+    families=['Ctx10', 'ModCtx', 'PNode', 'ImporterV', 'InfState10', 'VS10'], ret=Obj('VS10'),
+    ensures=[
+        'implies(not _prepare_infer_import(context.get_root_context(), tree_name)[3] or _prepare_infer_import(context.get_root_context(), tree_name)[0] is None, result == _prepare_infer_import(context.get_root_context(), tree_name)[3])',
+        'implies(_prepare_infer_import(context.get_root_context(), tree_name)[3] and _prepare_infer_import(context.get_root_context(), tree_name)[0] is not None and _prepare_infer_import(context.get_root_context(), tree_name)[3].py__getattribute__(_prepare_infer_import(context.get_root_context(), tree_name)[0], context, False), '
+        'result == _prepare_infer_import(context.get_root_context(), tree_name)[3].py__getattribute__(_prepare_infer_import(context.get_root_context(), tree_name)[0], context, False))',
+        'implies(_prepare_infer_import(context.get_root_context(), tree_name)[3] and _prepare_infer_import(context.get_root_context(), tree_name)[0] is not None and not _prepare_infer_import(context.get_root_context(), tree_name)[3].py__getattribute__(_prepare_infer_import(context.get_root_context(), tree_name)[0], context, False), '
+        'result == Importer(context.inference_state, _prepare_infer_import(context.get_root_context(), tree_name)[1] + [the(_prepare_infer_import(context.get_root_context(), tree_name)[0])], context.get_root_context(), _prepare_infer_import(context.get_root_context(), tree_name)[2]).follow())',
+    ],
+    concrete_ensures=['result == EXPECTED', 'LOG == EXPECTED_LOG'],
+    witness={}, replay=_replay_infer_import, concrete_only=True, witness_library=_II_LIB,
+)
+
 FAMILIES = [
     Family('Importer', fields={'_inference_state': Obj('InfState10'), 'level': INT, '_module_context': Obj('ModCtx'),
                                '_fixed_sys_path': Opt(Seq(STR)), '_infer_possible': BOOL,
@@ -298,7 +436,15 @@ FAMILIES = [
                                  ensures=['self.type == "import_from"'],
                                  note='parso: only ImportFrom has get_from_names'),
     }),
-    Family('ImporterV', methods={'follow': FnSpec('Importer.follow', ret=ANY, pure=True, assumed=True,
+    Family('VS10', attrs={'nonempty': BOOL}, truthy='o.nonempty', methods={
+        'py__getattribute__': FnSpec('ValueSet.py__getattribute__',
+                                     params=[('name_or_str', ANY), ('name_context', Obj('Ctx10')), ('analysis_errors', BOOL)],
+                                     defaults={'name_context': None, 'analysis_errors': True}, ret=Obj('VS10'), pure=True,
+                                     assumed=True, note='attribute lookup on every value of the set (inference engine)')},
+        note='jedi ValueSet: truth value = non-empty'),
+    Family('Ctx10', attrs={'inference_state': Obj('InfState10')}, methods={
+        'get_root_context': FnSpec('Context.get_root_context', ret=Obj('ModCtx'), pure=True)}),
+    Family('ImporterV', methods={'follow': FnSpec('Importer.follow', ret=Obj('VS10'), pure=True, assumed=True,
                                                   note='the values the importer finds: a function of its arguments')}),
     Family('Project10', attrs={'path': PATH}),
     Family('ModCtx', attrs={'inference_state': Obj('InfState10')}, methods={
@@ -311,7 +457,7 @@ FAMILIES = [
     }),
 ]
 
-CONTRACTS = [_iter_solutions, _importer_init, _prepare, _import_module10]
+CONTRACTS = [_iter_solutions, _transform, _importer_init, _prepare, _import_module10, _infer_import]
 
 
 def register(reg):
@@ -348,6 +494,10 @@ def register(reg):
     reg.families['PNode'].methods['search_ancestor'] = FnSpec(
         'PNode.search_ancestor', params=[('a', STR), ('b', STR)], ret=Obj('ImportNode'), pure=True, assumed=True,
         note='nearest import statement above a name that is part of one (call sites only pass such names)')
+    reg.names['_prepare_infer_import'] = FnSpec(
+        '_prepare_infer_import', params=[('module_context', Obj('ModCtx')), ('tree_name', Obj('PNode'))],
+        ret=Tup(Opt(ANY), Seq(ANY), INT, Obj('VS10')), pure=True, assumed=False, ensures=['result[2] >= 0'],
+        note='C10._prepare_infer_import')
     reg.names['Importer'] = FnSpec('Importer', params=[('inference_state', Obj('InfState10')), ('import_path', Seq(ANY)),
                                                        ('module_context', Obj('ModCtx')), ('level', INT)],
                                    ret=Obj('ImporterV'), pure=True, assumed=False, requires=['level >= 0'],
